@@ -173,13 +173,13 @@ func compareQueryCore(id string, p Path, shape string, doc any, c Case, visited 
 
 // refQuirks names the recorded defects the reference can emulate for
 // classification (each corresponds to one entry of KNOWN_FINDINGS.txt).
-var refQuirks = []string{"subscript-drops-null", "isunknown-swallows-hard-error", "unary-nonnumeric-exists-true"}
+var refQuirks = []string{"subscript-drops-null", "isunknown-swallows-hard-error", "unary-nonnumeric-exists-true", "datetime-vs-other-errinvalid"}
 
 func judgeQuery(id, shape string, out Out, ro refOut, c Case, st *cmpStats) *Failure {
 	if out.Class == "panic" {
 		return &Failure{Sig: id + "/panic/" + shape, Expected: "no panic; reference: " + refString(ro), Observed: out.String()}
 	}
-	if out.Class == "invalid" || out.Class == "other" || out.Class == "null" {
+	if (out.Class == "invalid" && ro.class() != "invalid") || out.Class == "other" || out.Class == "null" {
 		return &Failure{Sig: id + "/error-class-" + out.Class + "/" + shape, Expected: "ok, soft or hard; reference: " + refString(ro), Observed: out.String()}
 	}
 	if ro.declined != "" {
@@ -207,6 +207,12 @@ func judgeQuery(id, shape string, out Out, ro refOut, c Case, st *cmpStats) *Fai
 	}
 	st.outcome = expClass
 	st.nontrivial = expClass != "ok" || len(expItems) > 0
+	if expClass != "ok" && c.Silent && ro.multiObj {
+		// which error is met first (a suppressible one ends the silent run quietly) depends on member order
+		st.declined = true
+		st.outcome = "declined: silent run failing after iterating a multi-member object"
+		return nil
+	}
 	if expClass != "ok" {
 		if out.Class == "ok" {
 			return &Failure{Sig: fmt.Sprintf("%s/missed-error/%s/%s", id, expClass, shape), Expected: refString(ro), Observed: out.String()}
